@@ -134,7 +134,116 @@ def oracle(e, impl_tokens, n):
     return None
 
 
+# ---- special float values: NaN, infinities, signed zero, neighbouring doubles (implementation-only oracle) ----------
+# The Lean model computes in exact rationals, so these values are outside it; the statement still quantifies over all
+# float operand streams.  The oracle is the property itself: the very same CPython operator on the very same values.
+
+_NAN = float("nan")
+_INF = float("inf")
+SPECIAL = [_NAN, _INF, -_INF, 0.0, -0.0, 0.1 + 0.2, 0.3, 1e16, 1e16 + 2.0, 1.0, 1.0 + 2.0 ** -52, 1.0 - 2.0 ** -53, 1e-320, 5e-324,
+           0.1 * 3, 0.7 + 0.1, 0.8, 1e308, -1e308]
+PLAIN = [0, 1, -1, 2, 3, -7, 2 ** 53, 2 ** 53 + 1, 10 ** 16 + 1, 0.5, -2.5, 4.0, None]
+
+
+def _tok(x):
+    return "N" if x is None else "%s:%r" % (type(x).__name__, x)
+
+
+def _apply(f, a, b):
+    if a is None or b is None:
+        return "N"
+    try:
+        return _tok(f(a, b))
+    except Exception as ex:
+        return "err:" + type(ex).__name__
+
+
+def _pull(p, n):
+    out = []
+    for _ in range(n):
+        try:
+            out.append(_tok(next(p)))
+        except StopIteration:
+            out.append("stop")
+            break
+        except Exception as ex:
+            out.append("err:" + type(ex).__name__)
+    return out
+
+
+def eval_special(spec):
+    """(observed, expected) token lists of one special-float case; None when the inner expression itself raises"""
+    import warnings
+    iso = pat_impl.iso
+    op, shape, la, lb, lc, k, g_name, left = (spec[x] for x in ("op", "shape", "a", "b", "c", "k", "g", "left"))
+    f = PYOP[op]
+    with warnings.catch_warnings():
+        warnings.simplefilter("ignore")
+        if shape == "pp":
+            exp = [_apply(f, a, b) for a, b in zip(la, lb)] + ["stop"]
+            pat = f(iso.PSequence(la, 1), iso.PSequence(lb, 1))
+        elif shape == "ps":
+            exp = [_apply(f, a, k) for a in la] + ["stop"]
+            pat = f(iso.PSequence(la, 1), k)
+        elif shape == "sp":
+            exp = [_apply(f, k, b) for b in lb] + ["stop"]
+            pat = f(k, iso.PSequence(lb, 1))
+        else:
+            # the special value is produced inside the expression: (a g b) f c, e.g. inf - inf, inf * 0, 0.1 + 0.2
+            g = PYOP[g_name]
+            inner = []
+            for a, b in zip(la, lb):
+                if a is None or b is None:
+                    inner.append(None)
+                else:
+                    try:
+                        inner.append(g(a, b))
+                    except Exception:
+                        return None
+            exp = [(_apply(f, x, c) if left else _apply(f, c, x)) for x, c in zip(inner, lc)] + ["stop"]
+            ip = g(iso.PSequence(la, 1), iso.PSequence(lb, 1))
+            pat = f(ip, iso.PSequence(lc, 1)) if left else f(iso.PSequence(lc, 1), ip)
+        return _pull(pat, len(exp)), exp
+
+
+def special_float_cases(ctx):
+    from ..pat_props import _jsonable
+    r = ctx.rng
+    names = sorted(k for k in PYOP if k != "and")
+    small = [x for x in PLAIN if x is None or abs(x) <= 7]
+
+    for i in range(ctx.scale(1500, 60000)):
+        op = r.choice(names)
+        # ** and << over huge integers would only measure bignum arithmetic
+        plain = small if op in ("pow", "lshift", "rshift") else PLAIN
+
+        def stream(n):
+            return [r.choice(SPECIAL) if r.random() < 0.6 else r.choice(plain) for _ in range(n)]
+
+        spec = {"op": op, "shape": r.choice(["pp", "ps", "sp", "nest", "nest"]), "a": stream(r.randint(1, 7)), "b": stream(r.randint(1, 7)),
+                "c": stream(r.randint(1, 7)), "k": r.choice([x for x in SPECIAL + plain if x is not None]),
+                "g": r.choice(["add", "sub", "mul"]), "left": r.random() < 0.5}
+        res = eval_special(spec)
+        if res is None:
+            continue
+        got, exp = res
+        shape = spec["shape"]
+        name = (spec["g"] + ">" + op) if shape == "nest" else op
+        shown = {x: ([_tok(y) for y in spec[x]] if isinstance(spec[x], list) else spec[x]) for x in spec}
+        shown["k"] = _tok(spec["k"])
+        ctx.case(("special", repr(sorted(shown.items()))), nontrivial=True, validated=False, sample=dict(shown, impl=got))
+        special = any(("nan" in t or "inf" in t) for t in exp)
+        ctx.count("special:" + shape, "special-op:" + op, "special:nan-or-inf-in-result" if special else "special:finite-result")
+        if got != exp:
+            j = next((j for j, (x, y) in enumerate(zip(got, exp)) if x != y), min(len(got), len(exp)))
+            ctx.violation("C08:elementwise-special:" + op,
+                          "%s over special floats (%s): output %d is %s, the Python operator on the operand outputs gives %s"
+                          % (name, shape, j, got[j] if j < len(got) else "-", exp[j] if j < len(exp) else "-"),
+                          {"suite": "c08-special", "spec": _jsonable(spec), "shown": shown,
+                           "impl": got, "expected": exp, "first_failing_clause": "i-th output = operator(i-th operand outputs)"})
+
 def run(ctx):
+    special_float_cases(ctx)
     n_cases = ctx.scale(2500, 250000)
     scripts = []
     exprs = {}
@@ -169,4 +278,16 @@ def run(ctx):
 
 def replay(ctx, payload):
     from .. import pat_props as _pp
+    rp = payload.get("replay") or {}
+    if rp.get("suite") == "c08-special":
+        spec = _pp._unjson(rp["spec"])
+        res = eval_special(spec)
+        print("case    :", rp.get("shown"))
+        print("observed:", res and res[0])
+        print("expected:", res and res[1])
+        if res and res[0] != res[1]:
+            print("VIOLATION property=%s replay=<replayed>" % ctx.prop)
+            return 1
+        print("replay: the operator is applied element-wise on this case now")
+        return 0
     return _pp.replay(ctx, payload)
